@@ -45,7 +45,7 @@ def main():
         r = sh(["git", "-C", "/repo", "worktree", "add", "-q", "--detach", wt, "HEAD"])
         assert r.returncode == 0, r.stderr
         meta["repo_head"] = sh(["git", "-C", "/repo", "rev-parse", "--short", "HEAD"]).stdout.strip()
-        assert sh(["/tmp/phbuild/build_ext.sh", wt]).returncode == 0
+        assert sh([os.path.join(V, "tools", "seed_build_ext.sh"), wt]).returncode == 0
         r0 = sh(["/venv/bin/python", demo], cwd=wt, timeout=900)
         meta["demo_clean_rc"] = r0.returncode
         meta["ran"].append("demo on clean tree: rc=%d" % r0.returncode)
@@ -56,7 +56,7 @@ def main():
             ra = sh("patch -p1 < %s" % patch, cwd=wt)
         meta["patch_applies"] = ra.returncode == 0
         assert ra.returncode == 0, ra.stderr + ra.stdout
-        rb = sh(["/tmp/phbuild/build_ext.sh", wt])
+        rb = sh([os.path.join(V, "tools", "seed_build_ext.sh"), wt])
         meta["builds_with_patch"] = rb.returncode == 0
         r1 = sh(["/venv/bin/python", demo], cwd=wt, timeout=900)
         meta["demo_patched_rc"] = r1.returncode
